@@ -77,11 +77,12 @@ PROPS["C06"] = {
     "level": "exploration",
     "plan": zv_plan(["", "gvariant"], ["", "gvariant"], ("release",)),
     "rule": ("EVERY string over the 21-symbol alphabet ybnqiuxtdsgovha(){}mz up to length 6 (quick; 7 thorough) plus boundary "
-             "families (254..300 bytes, 31..40 nested arrays/structs, every non-basic dict key) and grammar-directed random "
+             "families (254..300 bytes, 31..40 nested arrays/structs, every non-basic dict key), 6000 (300000 thorough) nesting chains of 0/3/30..34 arrays and 0/3/30..34 structs "
+             "(and maybes in GVariant builds) in random order where each array may be a dict continuing in its value and each struct carries the nesting in its first/last/only field, and grammar-directed random "
              "long signatures with single-symbol mutations; accept/reject compared with the reference recogniser, and for "
              "accepted strings formatting, string_len, ==str, and Eq/Hash/Ord across parsed/dynamic/static representations; "
              "distinct = distinct accepted strings"),
-    "gates": {"quick": {"evaluations": 1000000, "distinct": 10000},
+    "gates": {"quick": {"evaluations": 1000000, "distinct": 10000, "nesting_chains": 5000, "nesting_chains_beyond_a_limit": 1500, "nesting_chains_through_dict_values": 800},
               "thorough": {"evaluations": 50000000, "distinct": 100000}},
     "exhaustive_note": "all strings over the alphabet up to the length recorded in classes.exhaustive_max_len (count in classes.exhaustive_strings_total) were enumerated in every feature build",
     "assumptions": ["reference recogniser vref::sig (checked against libdbus dbus_signature_validate vectors, DESIGN.md A.9)"],
